@@ -139,6 +139,9 @@ impl FragmentNumberSet {
     ) -> RtpsMessageResult<Self> {
         let base = FragmentNumber::try_read_from_bytes(data, endianness)?;
         let num_bits = u32::try_read_from_bytes(data, endianness)?;
+        if num_bits > 256 {
+            return Err(RtpsMessageError::InvalidData);
+        }
         let number_of_bitmap_elements = num_bits.div_ceil(32) as usize; //In standard referred to as "M"
         let mut bitmap = [0; 8];
 
@@ -149,7 +152,10 @@ impl FragmentNumberSet {
         let mut set = Vec::with_capacity(256);
         for delta_n in 0..num_bits as usize {
             if (bitmap[delta_n / 32] & (1 << (31 - delta_n % 32))) == (1 << (31 - delta_n % 32)) {
-                set.push(base + delta_n as u32);
+                set.push(
+                    base.checked_add(delta_n as u32)
+                        .ok_or(RtpsMessageError::InvalidData)?,
+                );
             }
         }
         Ok(Self::new(base, set))
